@@ -219,15 +219,34 @@ func runC17(c *Ctx) {
 		// tool-call parsing conditions
 		for _, h := range cg.FindCalls("server.Model.parseToolCalls") {
 			bad := ""
-			for _, fct := range cg.Facts(h.Loc) {
-				ast.Inspect(fct.Expr, func(n ast.Node) bool {
-					if id, ok := n.(*ast.Ident); ok {
-						if v, isVar := sinfo.Uses[id].(*types.Var); isVar && !v.IsField() && !strings.HasSuffix(core.ObjNameOfType(v.Type()), "Request") {
-							bad = core.ExprString(fct.Expr)
+			// a variable is harmless when it is the request, or a local of the handler assigned once from
+			// request fields and constants only (streaming := req.Stream == nil || *req.Stream)
+			var requestOnly func(e ast.Node, depth int) bool
+			requestOnly = func(e ast.Node, depth int) bool {
+				okAll := true
+				ast.Inspect(e, func(n ast.Node) bool {
+					id, ok := n.(*ast.Ident)
+					if !ok {
+						return true
+					}
+					v, isVar := sinfo.Uses[id].(*types.Var)
+					if !isVar || v.IsField() || strings.HasSuffix(core.ObjNameOfType(v.Type()), "Request") {
+						return true
+					}
+					if depth < 2 {
+						if rhs, _, cnt := singleDef(sinfo, f.Body, v); cnt == 1 && rhs != nil && requestOnly(rhs, depth+1) {
+							return true
 						}
 					}
-					return true
+					okAll = false
+					return false
 				})
+				return okAll
+			}
+			for _, fct := range cg.Facts(h.Loc) {
+				if !requestOnly(fct.Expr, 0) {
+					bad = core.ExprString(fct.Expr)
+				}
 			}
 			call := h.Node.(*ast.CallExpr)
 			acc := len(core.CallsTo(sinfo, call.Args[0], false, "strings.Builder.String")) == 1
@@ -343,10 +362,36 @@ func runC17(c *Ctx) {
 			}
 			// [DONE] terminator on the done edge
 			okDone := false
-			ast.Inspect(f.Body, func(n ast.Node) bool {
+			// the terminator: a literal or constant containing "[DONE]", here or in a package helper called here
+			hasDone := func(inf *types.Info, n ast.Node) bool {
 				if bl, isB := n.(*ast.BasicLit); isB && strings.Contains(bl.Value, "[DONE]") {
-					loc := g.Locate(bl)
-					for _, a := range g.AtomsAt(loc) {
+					return true
+				}
+				if id, isId := n.(*ast.Ident); isId {
+					if sv, isS := core.ConstString(inf, id); isS && strings.Contains(sv, "[DONE]") {
+						return true
+					}
+				}
+				return false
+			}
+			ast.Inspect(f.Body, func(n ast.Node) bool {
+				found := n != nil && hasDone(oinfo, n)
+				if call, isC := n.(*ast.CallExpr); isC && !found {
+					if fo, _ := core.Callee(oinfo, call).(*types.Func); fo != nil {
+						for _, hf := range c.P.FuncsOf("openai") {
+							if hf.Obj != nil && hf.Obj.FullName() == fo.FullName() {
+								ast.Inspect(hf.Body, func(m ast.Node) bool {
+									if m != nil && hasDone(hf.Info(), m) {
+										found = true
+									}
+									return !found
+								})
+							}
+						}
+					}
+				}
+				if found {
+					for _, a := range g.AtomsAt(g.Locate(n)) {
 						if se, isSel := ast.Unparen(a.Expr).(*ast.SelectorExpr); isSel && se.Sel.Name == "Done" && a.Val {
 							okDone = true
 						}
